@@ -1,6 +1,7 @@
 package zzverif
 
 import (
+	json2 "github.com/evanphx/json-patch/v5/internal/json"
 	jsonpatch "github.com/evanphx/json-patch/v5"
 	"github.com/evanphx/json-patch/v5/zzverif/vx"
 )
@@ -53,4 +54,14 @@ func H_Dev_NullMerge() {
 	if err != nil {
 		vx.ObserveStr("err", err.Error())
 	}
+}
+
+func H_Dev_Struct() {
+	var x tagged
+	err := json2.Unmarshal([]byte(`{"name":"a","e":"q"}`), &x)
+	if err != nil {
+		vx.ObserveStr("err", err.Error())
+	}
+	vx.ObserveStr("name", x.Name)
+	vx.ObserveStr("e", x.E)
 }
